@@ -1,10 +1,61 @@
 import AcraModel.Basic.Bytes
-/-! Driver ops for C14. -/
+import AcraModel.Sql.Tokenizer
+/-! Driver ops for C14: the SQL tokenizer. -/
 namespace Driver.C14
-open AcraModel
+open AcraModel AcraModel.Sql.Tokenizer
+
+def dialectOf : String → Option Dialect
+  | "mysql" => some .mysql
+  | "ansi" => some .ansi
+  | "postgresql" => some .postgresql
+  | _ => none
+
+/-- `outer[/inner][,multi]` -/
+def parseSpec (s : String) : Option (Dialect × Dialect × Bool) := do
+  let parts := s.splitOn ","
+  let multi := parts.contains "multi"
+  let ds := (parts.headD "").splitOn "/"
+  let o ← dialectOf (ds.headD "")
+  let i ← match ds with
+    | [_] => some o
+    | [_, x] => dialectOf x
+    | _ => none
+  pure (o, i, multi)
+
+def renderTok (t : Token) (pos : Nat) : String :=
+  match t.typ.id with
+  | some n => s!"{n}:{hexOf t.val}:{pos}"
+  | none => s!"?:{hexOf t.val}:{pos}"
+
+partial def loopTmp (dd : Dialect) (l : List Frame) (acc : Array String) : String :=
+  match l with
+  | [] => "bad"
+  | f :: sp =>
+    -- nested first
+    let inner : Option (Option (Token × List Frame)) :=
+      match sp with
+      | [] => some none
+      | g :: _ =>
+        match scanCore g with
+        | .ok (.tok t g') => if t.typ = .eof then some none else some (some (t, [f, g']))
+        | _ => none
+    match inner with
+    | none => "panic"
+    | some (some (t, l')) => loopTmp dd l' (acc.push (renderTok t f.pos))
+    | some none =>
+      match scanCore f with
+      | .ok (.tok t f') =>
+        let acc := acc.push (renderTok t f'.pos)
+        if t.typ = .eof then " ".intercalate acc.toList else loopTmp dd [f'] acc
+      | .ok (.special sql f') => loopTmp dd [f', newFrame dd sql] acc
+      | _ => "panic"
 
 def handle (op : String) (args : List String) : Option String :=
   match op, args with
+  | "tokens", [spec, h] => do
+      let (o, i, multi) ← parseSpec spec
+      let b ← ofHex h
+      pure (loopTmp i [{ dialect := o, buf := b, multi := multi }] #[])
   | _, _ => none
 
 end Driver.C14
